@@ -347,6 +347,12 @@ impl World {
                     }
                 }
             }
+            "DELMETA" => {
+                let _ = std::fs::remove_file(format!("{}/{}-nun.madadata", n.dir, a1));
+                let mut out = n.dump_files();
+                out.extend(n.dump_delta());
+                out
+            }
             "REG" => {
                 let op: u64 = match a1.parse() { Ok(s) => s, Err(_) => return vec!["E bad-op".into()] };
                 let msg = n.dbs.register_pending_opp(op, "m".to_string(), &a2.to_string());
